@@ -127,6 +127,15 @@ Fixpoint has_feeder (f : Z) (nl : list (Z * Z)) : bool :=
   | (f', _) :: r => (f =? f') || has_feeder f r
   end.
 
+(* the seeded variant (C08-3), kept as the non-vacuity witness of the commutation lemma: "swap with the last element,
+   drop the last" instead of the order-preserving `append(l[:i], l[i+1:]...)` *)
+Fixpoint remove_swap (f : Z) (nl : list (Z * Z)) : list (Z * Z) :=
+  match nl with
+  | [] => []
+  | (f', v) :: r => if f =? f' then match rev r with [] => [] | lst :: rr => lst :: rev rr end
+                    else (f', v) :: remove_swap f r
+  end.
+
 (* removeNonceWithValidatorAndFeederID *)
 Definition g_remove_nonce (f : Z) (_ : Z) (old : option (list (Z * Z))) : option (list (Z * Z)) :=
   match old with
@@ -472,6 +481,7 @@ Inductive site_case :=
 | SCMedian (l : list Z) (out : option Z)
 | SCValCache (init adds : list (Z * Z)) (keys : list Z) (out : list (Z * option Z))
 | SCSetVP (vp : list (Z * Z)) (keys : list Z) (out : list (Z * option Z)) (vals_sorted : list Z)
+| SCNonce (rows : list (Z * list (Z * Z))) (fs : list Z) (out : list (Z * list (Z * Z)))
 | SCSeal (maxnonce : Z) (fs : list feeder_cfg) (b1 h1 : Z) (force : bool) (h2 : Z)
          (failed1 sealed1 failed2 sealed2 : list Z).
 
@@ -493,6 +503,12 @@ Definition site_check (c : site_case) : option nat :=
       bool_fail (dump_eqb (dump keys (fst (cache_add adds (cache_add init (fempty, false))))) out)
   | SCSetVP vp keys out vals =>
       bool_fail (dump_eqb (dump keys (fst (set_validator_powers vp))) out && zlist_eqb (isort (map fst vp)) vals)
+  | SCNonce rows fs out =>
+      (* RemoveNonceWithFeederIDForAll for the feeders fs in this order, on a store holding exactly `rows`
+         (validator -> ORDERED NonceList); out = the rows read back, absent = [] *)
+      let st := seal_consume_all (map fst rows) fs (of_list rows) in
+      bool_fail (list_eqb (fun x y => (fst x =? fst y) && list_eqb (fun a b => (fst a =? fst b) && (snd a =? snd b)) (snd x) (snd y))
+                          (map (fun k => (k, match st k with Some nl => nl | None => [] end)) (map fst rows)) out)
   | SCSeal maxnonce fs b1 h1 force h2 failed1 sealed1 failed2 sealed2 =>
       if negb (forallb (fun f => fc_interval f >? 0) fs) then Some O else
       let ids := map (fun i => Z.of_nat i + 1) (seq 0 (List.length fs)) in
